@@ -9,5 +9,5 @@ import "testing"
 
 func TestVerifC19(t *testing.T) {
 	vc18Run(t, vc18Opts{universes: vEnvInt("VERIF_C19_UNIVERSES", 12), blocks: vEnvInt("VERIF_C19_BLOCKS", 8),
-		groups: vEnvInt("VERIF_C19_GROUPS", 12), faultPct: vEnvInt("VERIF_C19_FAULTPCT", 55), assetWeight: vEnvInt("VERIF_C19_ASSETS", 8), appWeight: vEnvInt("VERIF_C19_APPS", 16), panicPct: vEnvInt("VERIF_C19_PANICS", 8), file: "cases_c19.txt", salt: 0xC19})
+		groups: vEnvInt("VERIF_C19_GROUPS", 12), faultPct: vEnvInt("VERIF_C19_FAULTPCT", 55), assetWeight: vEnvInt("VERIF_C19_ASSETS", 8), appWeight: vEnvInt("VERIF_C19_APPS", 16), panicPct: vEnvInt("VERIF_C19_PANICS", 8), probePct: vEnvInt("VERIF_C19_PROBES", 14), file: "cases_c19.txt", salt: 0xC19})
 }
